@@ -166,7 +166,9 @@ impl<'xml> Deserializer<'xml> {
                     }
                     continue;
                 }
-                Event::DocType(_) => continue,
+                // no S3 document has a document type declaration (and quick-xml takes `<!doctype`
+                // in any letter case, anywhere, for one)
+                Event::DocType(_) => return Err(DeError::InvalidContent),
             };
             break Ok(de);
         }
